@@ -890,6 +890,27 @@ def _ldap(ctx):
                         tests[kind].add(other)
         common = tests['list'] & tests['bool'] & tests['dict']
         conv[name] = {kind: bool(common) for kind in tests}
+    # the update path: values are dropped from the comparison only when
+    # they are None - False and 0 are values (a flag switched off must be
+    # written, not treated as "attribute absent")
+    diff = mod.functions.get('_diff_entries')
+    ctx.require(diff is not None, '_ldap._diff_entries')
+    filters = 0
+    for sub in K.walk_no_nested(diff.node):
+        if isinstance(sub, (ast.ListComp, ast.SetComp, ast.GeneratorExp)):
+            for gen in sub.generators:
+                for cond in gen.ifs:
+                    filters += 1
+                    ok = isinstance(cond, ast.Compare) and \
+                        len(cond.ops) == 1 and \
+                        isinstance(cond.ops[0], ast.IsNot) and \
+                        N.txt(cond.comparators[0]) == 'None' and \
+                        N.txt(cond.left) == N.txt(gen.target)
+                    ctx.ob('C15.5', diff, cond, ok,
+                           'the update diff filters a value only when it '
+                           'is None (%s)' % N.txt(cond),
+                           construct='diff value filter')
+    ctx.require(filters >= 2, 'value filters of _diff_entries')
     ctx.ob('C15.5', mod.functions['_dict_2_entry'], None,
            conv['_entry_2_dict'] == conv['_dict_2_entry'] and
            all(conv['_dict_2_entry'].values()),
